@@ -136,6 +136,8 @@ def case(args):
             f = f.ignore_result()
         elif modifier == "local":
             f = f.force_local()
+        elif modifier == "ctx":  # the same call under context arguments is another call than the plain one
+            f = f.with_context_args({"tenant": "t1"})
         want = outcome(lambda: fx.plain(name))
         transient = want[0] == "exc" and isinstance(want[1], NonMemoizedException)
         if want[0] == "exc":
@@ -147,6 +149,11 @@ def case(args):
                             fx.val(other)
                         except Exception:
                             pass
+        if modifier == "ctx":
+            try:
+                fx.val(name)  # the plain call with the same argument: must stay memoized when the context call is forgotten
+            except Exception:
+                pass
         base("__neighbour")  # a neighbour call of the same function that must stay memoized
         if not transient and want[0] == "val" and modifier != "override":
             try:
@@ -185,7 +192,7 @@ def case(args):
         call("first", 1, False)
         call("second", 1 if transient else 0, True)
         if not bad:
-            mm = base.memento(name)
+            mm = (f if modifier == "ctx" else base).memento(name)
             if transient:
                 if mm is not None:
                     bad = ("recorded-not-to-be-memoized", "an exception marked not-to-be-memoized was recorded")
@@ -200,7 +207,7 @@ def case(args):
                 if mm.invocation_metadata.result_type != rt:
                     bad = ("result-type", "recorded result type %s, value read back classifies as %s" % (mm.invocation_metadata.result_type, rt))
         if not bad:
-            base.forget(name)
+            (f if modifier == "ctx" else base).forget(name)
             call("after-forget", 1, False)
             call("after-forget-second", 1 if transient else 0, True)
         if not bad:
@@ -210,6 +217,11 @@ def case(args):
                 bad = ("forget-scope", "forgetting one call made another call of the same function run again")
             elif nb != ("val", "neighbour"):
                 bad = ("neighbour-value", "the neighbour call of the same function now returns %s" % _short(nb))
+        if not bad and modifier == "ctx" and not transient:
+            audit.bodies_reset()
+            outcome(lambda: fx.val(name))
+            if audit.bodies():
+                bad = ("forget-scope-context", "forgetting the call made under context arguments made the plain call with the same argument run again")
         if not bad and not transient and want[0] == "val" and modifier != "override":
             audit.bodies_reset()
             got = outcome(lambda: fx.twin(name))
@@ -265,7 +277,7 @@ def run(ctx):
     ctx.rule = ("result values: %d atoms (None, bool, ints, floats incl. -0.0/NaN/inf, str, bytes, date, naive/aware datetime, "
                 "Timestamp, numpy arrays of 7 dtypes empty/len 1/with NaN, Index/Series/DataFrame empty/tiny/object/NaN, in-memory and "
                 "on-disk partitions) + 7 exception classes, closed under list/dict to depth %d x {memory, filesystem, fs+cache 8 B / "
-                "4 KiB / 1 MiB} x {plain, ignore_result, force_local, all calls stored under one shared key override}; exception values after every other exception class of the alphabet (incl. a same-named class of another module) was recorded and replayed in the process; sequence call, call, memento(), forget, call, call + "
+                "4 KiB / 1 MiB} x {plain, ignore_result, force_local, all calls stored under one shared key override, under context arguments}; exception values after every other exception class of the alphabet (incl. a same-named class of another module) was recorded and replayed in the process; sequence call, call, memento(), forget, call, call + "
                 "neighbour call stays memoized. distinct = (backend, value, modifier)." % (len(names("quick")) - 7, 2 if thorough else 1))
     ctx.assumptions += ["pandas values have <= 100 rows (the cache's size estimator samples above that)",
                         "a replayed exception keeps its class when the class is importable and constructible from one string, otherwise "
@@ -274,7 +286,7 @@ def run(ctx):
     tasks = []
     for kind in BACKENDS:
         for n in ns:
-            for mod in (None, "ignore", "local", "override"):
+            for mod in (None, "ignore", "local", "override", "ctx"):
                 if not thorough and mod and kind not in ("fs", "fsc-4k") and ":" in n:
                     continue
                 if mod == "override" and (n.startswith("exc") or ":exc" in n):
